@@ -624,7 +624,7 @@ def tlc_simulate(n, length, seed):
     cfg = d / "FeaturesSim.cfg"
     cfg.write_text((SPEC / "FeaturesSim.cfg").read_text().replace("MaxHist = 6", f"MaxHist = {length}"))
     try:
-        res = core.run_tlc(SPEC / "Features.tla", cfg, workers=4, timeout=600, simulate=f"num={max(50, n // 2)}", depth=length + 1, seed=seed, coverage=False)
+        res = core.run_tlc(SPEC / "Features.tla", cfg, workers=4, timeout=1800, simulate=f"num={max(50, n // 2)}", depth=length + 1, seed=seed, coverage=False)
     finally:
         shutil.rmtree(d, ignore_errors=True)
     core.require_ok(res, "Features.tla -simulate")
@@ -829,6 +829,7 @@ def main(tier: str, seed: int) -> int:
         ]
     else:
         table = tlc_graph("FeaturesFull.cfg", ALL_ACTS, v, timeout=3000)
+        hists, sres = tlc_simulate(3000, 8, seed)     # histories for the replay after the walks
         plan = [
             ("pheno_real", "iv1", ALL_ACTS, 4, None, 300),
             ("mox2", "oral1", ALL_ACTS, 4, None, 300),
@@ -844,7 +845,6 @@ def main(tier: str, seed: int) -> int:
         print(f"C08 walk {walks[-1]}", file=sys.stderr, flush=True)
     n_hist = 0
     if tier == "thorough":
-        hists, sres = tlc_simulate(3000, 8, seed)
         _TABLE.clear()
         _TABLE.update(table)
         tasks = []
